@@ -1,8 +1,8 @@
 SPECIFICATION Spec
 CONSTANTS
   Acceptors = {"a1", "a2", "a3"}
-  Dialers = {"d1", "d2", "d3"}
-  Secrets = {"s1", "s2"}
+  Dialers = {"d1", "d2"}
+  Secrets = {"s1", "s2", "s3"}
   AllowForged = TRUE
   KeyMode = "random"
   CertMode = "checked"
